@@ -26,7 +26,7 @@ func (c08) Assumptions() []string {
 
 func (c08) Phases(env run.Env) []run.Phase {
 	if env.Thorough {
-		return []run.Phase{{Name: "fault-points", N: 24000}}
+		return []run.Phase{{Name: "fault-points", N: 70000}}
 	}
 	return []run.Phase{{Name: "fault-points", N: 1600}}
 }
